@@ -21,7 +21,7 @@ Print Assumptions c09_calendar.
 Theorem c09_epoch_inverse : forall y m d h mi s,
   1970 <= y <= 2099 -> valid_date y m d = true -> 0 <= h < 24 -> 0 <= mi < 60 -> 0 <= s < 60 ->
   time_to_epoch (mk_tm y m d h mi s) 0 false
-  = Some (days_from_civil y m d * 86400 + h * 3600 + mi * 60 + s, false).
+  = (days_from_civil y m d * 86400 + h * 3600 + mi * 60 + s, false).
 Proof. exact epoch_inverse_lemma. Qed.
 Print Assumptions c09_epoch_inverse.
 
@@ -47,6 +47,21 @@ Theorem c09_parse : forall k s v, denote k s = Some v -> in_range v = true ->
   field_parse (mkind k) s = Ticks v false.
 Proof. exact parse_lemma. Qed.
 Print Assumptions c09_parse.
+
+(* Robustness of the string constructors (since da4ab8c): whatever the characters are -- month
+   00, 13, 99, non-digits, bytes >= 0x80 -- a text of at least min_text_len characters (16 for a
+   timestamp, 7 for a time, 5 for the dates) always yields a field: nothing outside the NUL
+   terminated text and outside time_to_epoch's table is read. *)
+Theorem c09_parse_total_partial : forall wide k s, (min_text_len k <= length s)%nat ->
+  exists t ub, field_parse_gen wide (mkind k) s = Ticks t ub.
+Proof. exact parse_total_lemma. Qed.
+Print Assumptions c09_parse_total_partial.
+
+(* ... a shorter one is read past its end ("2014" as a UTCTimestamp: the parser reads 17 bytes
+   whatever the length). *)
+Theorem c09_parse_overrun_refuted : exists k s, is_now s = false /\ field_parse (mkind k) s = OOB.
+Proof. exact parse_overrun_refuted_lemma. Qed.
+Print Assumptions c09_parse_overrun_refuted.
 
 (* The code before the repair 4d1009d (time_to_epoch evaluated in int, [roundtrip_orig]) violated
    the property from 2038-01-19T03:14:08 on: signed overflow, the timestamp parses to a negative
